@@ -1533,16 +1533,32 @@ func ruleMsgScope(p *Prog, r *Report) {
 		key := rule + ":sml.Parse:loop"
 		ttEOF, _ := smlConst(p, "tokenTypeEOF")
 		var call *ssa.Call
+		// the loop stands in Parse itself or in a function of the package Parse
+		// calls (one level)
+		cands := []*ssa.Function{pf}
 		for _, b := range pf.Blocks {
 			for _, instr := range b.Instrs {
-				if c, ok := instr.(*ssa.Call); ok && c.Common().StaticCallee() == pm {
-					call = c
+				if c, ok := instr.(*ssa.Call); ok {
+					if sc := c.Common().StaticCallee(); sc != nil && sc != pm && InModule(sc) && sc.Pkg == pf.Pkg && len(sc.Blocks) > 0 {
+						cands = append(cands, sc)
+					}
+				}
+			}
+		}
+		loopFn := pf
+		for _, cf := range cands {
+			for _, b := range cf.Blocks {
+				for _, instr := range b.Instrs {
+					if c, ok := instr.(*ssa.Call); ok && c.Common().StaticCallee() == pm && call == nil {
+						call = c
+						loopFn = cf
+					}
 				}
 			}
 		}
 		good := false
 		if call != nil && inLoop(call.Block()) {
-			for _, b := range pf.Blocks {
+			for _, b := range loopFn.Blocks {
 				if iff, ok := b.Instrs[len(b.Instrs)-1].(*ssa.If); ok && inLoop(b) {
 					if bo, ok := iff.Cond.(*ssa.BinOp); ok && (bo.Op == token.NEQ || bo.Op == token.EQL) {
 						if c, ok := bo.Y.(*ssa.Const); ok && constVal(c).K == KInt && constVal(c).I.Int64() == ttEOF {
